@@ -168,10 +168,10 @@ func wfaultGroup(p *wfaultParams, st *Stats, run int, cfg Config, doc []byte, ki
 			}
 		}()
 		before := st.Counters["fired.short+err"] + st.Counters["fired.zero+err"] + st.Counters["fired.full+err"] +
-			st.Counters["fired.always"] + st.Counters["fired.transient"] + st.Counters["fired.short+nil"]
+			st.Counters["fired.always"] + st.Counters["fired.transient"] + st.Counters["fired.short+nil"] + st.Counters["fired.flaky"]
 		v := wfaultOne(cfg, docs, op, R, st)
 		after := st.Counters["fired.short+err"] + st.Counters["fired.zero+err"] + st.Counters["fired.full+err"] +
-			st.Counters["fired.always"] + st.Counters["fired.transient"] + st.Counters["fired.short+nil"]
+			st.Counters["fired.always"] + st.Counters["fired.transient"] + st.Counters["fired.short+nil"] + st.Counters["fired.flaky"]
 		if after > before && f != nil {
 			st.Distinct(hashU64(hashU64(hashStr(f.Kind+f.Shape+"/"+f.Err)^groupHash, uint64(f.K)), uint64(f.J)))
 			if f.Err != "" {
@@ -202,7 +202,7 @@ func wfaultGroup(p *wfaultParams, st *Stats, run int, cfg Config, doc []byte, ki
 	ctl := runSolo(cfg, docs, base)
 	calls := ctl.Sink.calls
 	st.Sample(map[string]interface{}{"engine": "wfault", "config": cfg.Key(), "path": kind, "stack": stack, "doc": clipStr(doc, 120),
-		"output_len": L, "sink_calls_fault_free": calls, "enumerated": fmt.Sprintf("short+err k=0..%d (stride %d), zero+err/full+err j=0..%d, always, transient, short+nil", L, stride, calls)})
+		"output_len": L, "sink_calls_fault_free": calls, "enumerated": fmt.Sprintf("short+err k=0..%d (stride %d), zero+err/full+err j=0..%d, always, transient, flaky sequences, short+nil", L, stride, calls)})
 
 	// every byte offset
 	for k := 0; k <= L; k++ {
@@ -257,6 +257,19 @@ func wfaultGroup(p *wfaultParams, st *Stats, run int, cfg Config, doc []byte, ki
 		}
 		if !try(&FaultPlan{Kind: "always", Err: ek}) {
 			return
+		}
+	}
+	// fault SEQUENCES: every call fails with some probability, the calls in between succeed
+	// (a destination that recovers and fails again); at several rates, a few sequences each
+	for _, rate := range []int{3, 10, 30, 60} {
+		for i := 0; i < 3; i++ {
+			f := &FaultPlan{Kind: "flaky", J: r.Intn(1 << 20), K: rate}
+			if i == 2 {
+				f.Err = pick(r, errKinds[1:])
+			}
+			if !try(f) {
+				return
+			}
 		}
 	}
 	// seeded transient and contract-breaking plans
